@@ -329,7 +329,12 @@ impl ZmtpUringHandler {
             peer_identity,
             fd: self.fd,
           };
-          if let Err(e) = self.worker_io_config.socket_mailbox.try_send(cmd) {
+          // Send through a short-lived clone: a mailbox sender keeps a private cache of queue nodes (a chunk
+          // is taken on its first send and only returned when the sender is dropped). With one long-lived
+          // sender per connection a handful of connections would hoard every node of the socket's mailbox
+          // and this command - without which the connection is never attached - would be refused as "full".
+          let one_shot_sender = self.worker_io_config.socket_mailbox.clone();
+          if let Err(e) = one_shot_sender.try_send(cmd) {
             warn!(
               fd = self.fd,
               "ZmtpUringHandler: failed to send UringConnectionEstablished to SocketCore: {:?}", e
@@ -384,6 +389,7 @@ impl ZmtpUringHandler {
           let _ = self
             .worker_io_config
             .socket_mailbox
+            .clone() // short-lived clone: see UringConnectionEstablished
             .try_send(Command::UringFdError {
               endpoint_uri: self.worker_io_config.endpoint_uri.clone(),
               error: e,
@@ -490,6 +496,7 @@ impl UringConnectionHandler for ZmtpUringHandler {
       let _ = self
         .worker_io_config
         .socket_mailbox
+        .clone() // short-lived clone: see UringConnectionEstablished
         .try_send(Command::UringFdError {
           endpoint_uri: self.worker_io_config.endpoint_uri.clone(),
           error: ZmqError::ConnectionClosed,
@@ -604,6 +611,7 @@ impl UringConnectionHandler for ZmtpUringHandler {
             let _ = self
               .worker_io_config
               .socket_mailbox
+              .clone() // short-lived clone: see UringConnectionEstablished
               .try_send(Command::UringFdError {
                 endpoint_uri: self.worker_io_config.endpoint_uri.clone(),
                 error: e,
